@@ -130,9 +130,10 @@ Fixpoint order_ok_n (an : aforest) (d : dnode) {struct d} : bool :=
 Definition order_ok (an : aforest) (d : list dnode) : bool :=
   list_str_eqb (ordered_rows_d an d) (ordered_rows_a an) && forallb (order_ok_n an) d.
 
-(* top level MOVED characterisation for %ordered rules: a surviving row keeps its
+(* MOVED characterisation for %ordered rules, one level: a surviving row keeps its
    place iff the prefix of new up to and including it equals the same-length prefix of
-   old (within the rows of %ordered rules); otherwise it is MOVED *)
+   old (within the rows of %ordered rules); otherwise it is MOVED -- and it is MOVED
+   anyway when the entry the level hangs under is itself MOVED ([pm]) *)
 Fixpoint prefix_ok (old_rows new_rows : list string) (row : string) : bool :=
   match new_rows, old_rows with
   | n :: ns, o :: os => String.eqb n o && (String.eqb n row || prefix_ok os ns row)
@@ -203,3 +204,21 @@ Fixpoint has_rewrite_r (r : prule) : bool :=
     dlogic_eqb (a_dlogic a) DRewrite || existsb has_rewrite_r kl || existsb has_rewrite_r kg
   end.
 Definition has_rewrite (rs : rset) : bool := existsb has_rewrite_r (fst rs) || existsb has_rewrite_r (snd rs).
+
+(* "equal as unordered trees, nesting intact": a permutation of the rows of every level *)
+Inductive fperm : forest -> forest -> Prop :=
+| fp_nil : fperm [] []
+| fp_skip r k k' l l' : fperm k k' -> fperm l l' -> fperm ((r, T k) :: l) ((r, T k') :: l')
+| fp_swap x y l : fperm (y :: x :: l) (x :: y :: l)
+| fp_trans a b c : fperm a b -> fperm b c -> fperm a c.
+
+(* no row, at any depth, is governed by a %rewrite rule *)
+Fixpoint norw_t (t : atree) : bool :=
+  match t with
+  | AT kids => (fix go (l : aforest) : bool :=
+                  match l with
+                  | [] => true
+                  | (_, m, s) :: l' => negb (dlogic_eqb (mi_dlogic m) DRewrite) && norw_t s && go l'
+                  end) kids
+  end.
+Definition norw (f : aforest) : bool := norw_t (AT f).
